@@ -94,27 +94,35 @@ Section Facts.
       closed P C b L && check_states f_all L && check_trans P C b f_measure L.
   End OneBeh.
 
-  Definition check_all : bool := forallb check_beh (all_behs C).
+  (* evaluated by the VM, which is call-by-value: `f a && forallb f l` would evaluate every behaviour even
+     after the first failure; this form stops at the first behaviour that fails (a failing program is
+     recognised in seconds, not after the whole sweep) *)
+  Fixpoint forallb_sc {A} (f : A -> bool) (l : list A) : bool :=
+    match l with [] => true | a :: l' => if f a then forallb_sc f l' else false end.
+  Lemma forallb_sc_eq : forall A (f : A -> bool) l, forallb_sc f l = forallb f l.
+  Proof. induction l as [|a l IH]; [reflexivity|]. cbn. rewrite IH. now destruct (f a). Qed.
+
+  Definition check_all : bool := forallb_sc check_beh (all_behs P C).
 
   (* ---- transfer along agreeing behaviours ------------------------------------------------ *)
-  Lemma reports_ext : forall b b', beh_agree C b b' -> callee_reports b = callee_reports b'.
+  Lemma reports_ext : forall b b', beh_agree P C b b' -> callee_reports b = callee_reports b'.
   Proof.
-    intros b b' (Ho & _ & Hp & _ & _ & Hu & Hi). unfold callee_reports. rewrite Ho, Hp, Hu, (Hi ExceptionC); [reflexivity|].
+    intros b b' (Ho & _ & Hp & _ & _ & Hu & _ & Hi). unfold callee_reports. rewrite Ho, Hp, Hu, (Hi ExceptionC); [reflexivity|].
     apply nodup_In. right; now left.
   Qed.
-  Lemma demanded_ext : forall b b', beh_agree C b b' -> demanded b = demanded b'.
+  Lemma demanded_ext : forall b b', beh_agree P C b b' -> demanded b = demanded b'.
   Proof.
     intros b b' Hag. unfold demanded. rewrite (reports_ext _ _ Hag).
-    destruct Hag as (Ho & _ & _ & _ & _ & _ & Hi). rewrite Ho, (Hi StopIterationC); [reflexivity | apply nodup_In; now left].
+    destruct Hag as (Ho & _ & _ & _ & _ & _ & _ & Hi). rewrite Ho, (Hi StopIterationC); [reflexivity | apply nodup_In; now left].
   Qed.
-  Lemma envelope_ext : forall b b', beh_agree C b b' -> returns_envelope b = returns_envelope b'.
+  Lemma envelope_ext : forall b b', beh_agree P C b b' -> returns_envelope b = returns_envelope b'.
   Proof.
     intros b b' Hag. unfold returns_envelope. rewrite (reports_ext _ _ Hag).
     destruct Hag as (Ho & _ & _ & _ & Hr & _). now rewrite Ho, Hr.
   Qed.
-  Lemma unp_ext : forall b b', beh_agree C b b' -> b_unp b = b_unp b'.
-  Proof. intros b b' (_ & _ & _ & _ & _ & Hu & _). exact Hu. Qed.
-  Lemma f_all_ext : forall b b' s, beh_agree C b b' -> f_all b s = f_all b' s.
+  Lemma unp_ext : forall b b', beh_agree P C b b' -> b_unp b = b_unp b'.
+  Proof. intros b b' (_ & _ & _ & _ & _ & Hu & _ & _). exact Hu. Qed.
+  Lemma f_all_ext : forall b b' s, beh_agree P C b b' -> f_all b s = f_all b' s.
   Proof.
     intros b b' s Hag. unfold f_all, f_progress, f_done, f_exact, f_nonblocking, f_child_free, sync_blocked, child_enabled,
       parent_enabled, spec_ok, outcome_ok, model_final.
@@ -131,8 +139,8 @@ Section Facts.
 
   Lemma facts_hold : forall b s, lreach P C b s -> f_all b s = true.
   Proof.
-    intros b s Hr. destruct (all_behs_complete C b) as [b' [Hin Hag]].
-    rewrite (f_all_ext b b' s Hag). unfold check_all in Hcheck. rewrite forallb_forall in Hcheck.
+    intros b s Hr. destruct (all_behs_complete P C b) as [b' [Hin Hag]].
+    rewrite (f_all_ext b b' s Hag). unfold check_all in Hcheck. rewrite forallb_sc_eq, forallb_forall in Hcheck.
     specialize (Hcheck b' Hin). unfold check_beh in Hcheck.
     apply andb_true_iff in Hcheck as [Hc _]. apply andb_true_iff in Hc as [Hc Hf].
     eapply check_states_sound; eauto. eapply lreach_ext; eauto.
@@ -140,8 +148,8 @@ Section Facts.
 
   Lemma measure_decreases : forall b s c s', lreach P C b s -> lstep P C b 0 c s = Some s' -> measure s' < measure s.
   Proof.
-    intros b s c s' Hr Hs. destruct (all_behs_complete C b) as [b' [Hin Hag]].
-    unfold check_all in Hcheck. rewrite forallb_forall in Hcheck.
+    intros b s c s' Hr Hs. destruct (all_behs_complete P C b) as [b' [Hin Hag]].
+    unfold check_all in Hcheck. rewrite forallb_sc_eq, forallb_forall in Hcheck.
     specialize (Hcheck b' Hin). unfold check_beh in Hcheck.
     apply andb_true_iff in Hcheck as [Hc Hm]. apply andb_true_iff in Hc as [Hc _].
     apply Nat.ltb_lt. change (f_measure s s' = true).
